@@ -222,7 +222,14 @@ class _Render:
             # children are defined first so that the symbol exists; order of definition is irrelevant
             sym = self.sym.get(id(node)) or self.define(node)
             self.sym[id(node)] = sym
-            out.append(f"{p}    r = {sym}()")
+            if node.id % 5 == 2:
+                # called inside a block that adjusts the log verbosity (to what it already is): tbot's own context
+                # managers around a testcase must let its exception — a failure, a skip, ^C — pass
+                out.append(f"{p}    r = UNIT")
+                out.append(f"{p}    with tbot.log.with_verbosity(tbot.log.VERBOSITY):")
+                out.append(f"{p}        r = {sym}()")
+            else:
+                out.append(f"{p}    r = {sym}()")
         mark = f"T('R', '{node.name}', tag(e))"
         if node.guard == "e":
             out += [f"{p}except Exception as e:", f"{p}    {mark}"] + rec
